@@ -80,6 +80,11 @@ descriptorLoop:
 	if !found {
 	descriptorLoop2:
 		for _, descriptor := range details.Descriptors {
+			if descriptor.TypeFn != nil {
+				// Overloads described by a type function carry no argument types to test against;
+				// they have been decided in the first pass.
+				continue
+			}
 			argTypes := argumentTypes
 			if descriptor.Strict {
 				argTypes = nonNullableArgumentTypes
